@@ -85,6 +85,41 @@ class BorrowerLists(object):
         return H.observation_key(obs), vs, len(obs['log'])
 
 
+class CopyAges(object):
+    case_timeout = 10
+    name = 'copy-ages'
+    describe = ('two or three requested modules, every one failing (missing or syntax error) and borrowable; each borrowable copy '
+                'older or newer (2 ages) than an existing transformed copy the searcher knows, or no such copy (3 states): every '
+                'combination x every request order x one / two borrowers: a module is borrowed exactly when no existing copy is '
+                'at least as new as ITS OWN borrowable copy')
+
+    def blocks(self, tier):
+        return [{'n': n, 'kind': k, 'nb': nb} for n in (2, 3) for k in ('missing', 'synerr') for nb in (1, 2)]
+
+    def cases(self, block, tier):
+        n = block['n']
+        mods = H.USER[:n]
+        for ages in itertools.product((1500, 2500), repeat=n):
+            for copies in itertools.product((None, 2000), repeat=n):
+                for req in itertools.permutations(mods):
+                    if tier != 'thorough' and n == 3 and req[0] != 'A' and block['nb'] == 2:
+                        continue
+                    bl = [{'texts': False, 'ans': dict((m, 'has') for m in mods), 'mtime': dict(zip(mods, ages))}]
+                    if block['nb'] == 2:
+                        # the first borrower holds only the last module, with the opposite age
+                        bl.insert(0, {'texts': False, 'ans': {mods[-1]: 'has'}, 'mtime': {mods[-1]: 4000 - ages[-1]}})
+                    w = {'n': n, 'edges': [], 'req': list(req), 'used': 0, 'borrowers': bl,
+                         'searchers': [{'copy': dict((m, c) for m, c in zip(mods, copies) if c is not None)}]}
+                    for m in mods:
+                        C09.apply_failure(w, m, block['kind'])
+                    yield w
+
+    def run_case(self, case):
+        obs = H.run_world(case)
+        vs = H.judge(case, obs, 'C19|copy-ages')
+        return H.observation_key(obs), vs, len(obs['log'])
+
+
 EXTS = ['', '.py', '.pyc', '.json', '.txt', '.mib', '.my', '.PY', '.JSON']
 
 
@@ -141,4 +176,4 @@ class FileBorrowers(object):
             shutil.rmtree(d, ignore_errors=True)
 
 
-FAMILIES = [BorrowerLists(), FileBorrowers()]
+FAMILIES = [BorrowerLists(), FileBorrowers(), CopyAges()]
